@@ -271,11 +271,14 @@ def info_trim(dist, rvs=None, rv_mode=None):
 
     d = dist.copy()
 
-    rvs2 = {tuple(rv) for rv in rvs}
+    # Work with indices from here on: the intermediate distributions built by
+    # insert_mss do not carry the variable names.
+    rvs = [tuple(parse_rvs(dist, rv, rv_mode)[1]) for rv in rvs]
+    rvs2 = set(rvs)
 
     for rv in rvs:
-        about = list(flatten(rvs2 - {tuple(rv)}))
-        d = insert_mss(d, -1, rvs=tuple(rv), about=about, rv_mode=rv_mode)
+        about = list(flatten(rvs2 - {rv}))
+        d = insert_mss(d, -1, rvs=list(rv), about=about, rv_mode=RV_MODES.INDICES)
 
     d = pruned_samplespace(d.marginalize(list(flatten(rvs))))
 
